@@ -462,7 +462,7 @@ func c12CodecStream(r *hx.Rand, tier string, n int, w func(*hx.Line), caseNo fun
 		text := docPool[r.Intn(len(docPool))]
 		switch {
 		case i == 0:
-			text = "\"\\u0074rue\"" // the witness of known finding F-C12c, always present
+			text = "\"\\u0074rue\"" // regression row of the fixed finding F-C12c (escaped spelling of "true"), always present
 		case r.Chance(10):
 			text = strconv.Itoa(r.Intn(2000000000) - 1000000)
 		case r.Chance(10):
